@@ -96,6 +96,8 @@ class SpecDB:
             helpers = {}
             for node in tree.body:
                 if isinstance(node, ast.FunctionDef):
+                    if node.name.startswith("gen_"):
+                        continue           # run-time input generators (bounded stand-in), not contract clauses
                     body = [b for b in node.body if not (isinstance(b, ast.Expr) and isinstance(b.value, ast.Constant))]
                     if len(body) != 1 or not isinstance(body[0], ast.Return):
                         raise EngineError(f"{path}:{node.lineno}: clause {node.name} must be a single return")
@@ -663,6 +665,15 @@ class Pure:
                 for ax in extreme_axioms(A, v.length, name == "min_of"):
                     self.defs.append(ax)
                 return Num((MINF if name == "min_of" else MAXF)(A, v.length), "real")
+            if name == "index_of":
+                # Hilbert-choice style definition: SOME index holding v, if there is one (conservative extension)
+                xs, v = args
+                A = L.array_term(self.I, self.st, xs)
+                K = IDXOF(A, xs.length, to_real(v))
+                i = z3.Int(fresh_name("i"))
+                self.defs.append(z3.Implies(z3.Exists([i], z3.And(i >= 0, i < xs.length, A[i] == to_real(v))),
+                                            z3.And(K >= 0, K < xs.length, A[K] == to_real(v))))
+                return Num(K, "int")
             if name == "is_2d":
                 return BoolN(isinstance(args[0], F2))
             if name == "is_tuple":
